@@ -157,7 +157,7 @@ def lake_build(targets, timeout=3000):
 
 def lean_run_file(path, timeout=1800):
     """`lake env lean <path>`; returns (rc, output)."""
-    return sh(["lake", "env", "lean", path], cwd=LEAN, timeout=timeout)
+    return sh(["lake", "env", "lean", "-DmaxErrors=1000000", path], cwd=LEAN, timeout=timeout)
 
 
 def theorem_spans(path):
